@@ -564,6 +564,7 @@ func runC12(r *core.Run) (bool, string) {
 		"further families: R one ReadAt per history at offsets around 2^31, 2^32, 2^40, 2^62, 2^63, 2^64 × lengths 0,1,2,4096,4097 (offset+length crossing 2^63 and wrapping 2^64) × file sizes 0,1,100,4096; K every order of the Closes of 2–3 descriptors of one file × every position of the Delete × name re-created by Create / AtomicCreate / not, all remaining descriptors used after every step; O AtomicCreate over a name that is open for append / open for read / open twice / linked elsewhere / linked and open / deleted but open / absent × old size 0,1,100 × new data nil, 0, 1, 100; T 0- and 1-byte files made in nine ways read at every small offset/length; " +
 		"L (in one child process per implementation, every history announced before it runs; a dead child is a violation) one ReadAt per history with length 0, 2^31±1, 2^32, 2^32+1, 2^47, 2^62, 2^63-1, 2^63, 2^64-4096, 2^64-1 at offsets 0 / mid-file / last byte / EOF / EOF+1 / EOF+4096 / 2^32 / 2^62 × file sizes 0,1,100,4096; " +
 		"S (child process) the staging scheme of DirFs.AtomicCreate is observed with inotify during three calls, the next staging name is extrapolated, and a directory (staged in the root) or a caller's file (staged in the directory) gets exactly that name before AtomicCreate runs; " +
+		"P Append (header + body + trailer, twice) and AtomicCreate of 0, 1, 4 KiB, 64 KiB−1, 64 KiB, 64 KiB+1, 256 KiB, 1 MiB with reads of the whole file, of exactly the body and across both of its borders, through a descriptor opened before and one opened after the appends (the random pools draw 64 KiB−1 / 64 KiB / 64 KiB+1 / 256 KiB payloads once in 60 and 1 MiB once in 150); " +
 		"M 13–400 (thorough: 3000) entries in one directory (short, 255-byte and mixed names; Create, Link, AtomicCreate) with List after filling, after deleting every other name and after refilling — sequential, so DirFs's multi-chunk List must be exact —, 200 descriptors open at once, 1 / 12 / 64 directories")
 	r.Assume("the DirFs root lives on the filesystem of $TMPDIR (ext4 here: case-sensitive, no unicode normalisation, NAME_MAX 255 bytes, any byte but '/' and NUL in a name); names are legal single path components (no separator, no NUL, not \".\" or \"..\", at most 255 bytes, valid UTF-8) — nothing else is reserved. Generated names never contain this process's id; the exact collision with the next staging name of DirFs.AtomicCreate is the business of the staging probe (family S), which observes the scheme instead of assuming it")
 	r.Assume("only precondition-respecting calls are issued: Open/Delete/Link-source exist, descriptors are open and of the right mode, Mkdir only of new directories; offsets and lengths of ReadAt are any uint64 (lengths from 2^31 on only in the child processes of family L, because an implementation that allocates the requested length dies with a fatal error)")
@@ -689,6 +690,7 @@ func runC12(r *core.Run) (bool, string) {
 		famItems = append(famItems, closeInterleavingFamily()...)
 		famItems = append(famItems, atomicOverFamily()...)
 		famItems = append(famItems, tinyFileFamily()...)
+		famItems = append(famItems, payloadSizeFamily()...)
 		famItems = append(famItems, manyFilesFamily(r.Seed, r.Quick())...)
 		famCount := map[string]int{}
 		for _, it := range famItems {
